@@ -1,5 +1,6 @@
 """C14 — lines name the process the dump declares for the thread; columns compose."""
 import itertools
+import re
 from .. import vlib
 from ..vlib import cN, clist
 from ..translate import tr_decoders, tr_handlers
@@ -120,10 +121,50 @@ def run(ctx, model_ok):
         cmeta.append(creq[-1])
     texts = ['read(3, 0x1000, 16), count: 16', 'open("/tmp/a  b", O_RDONLY), fd: 3', 'lookup("/a\tb"), vnode id: 5',
              'x  y', ' leading', 'trailing ', 'a\nb', 'New process name: Safari', 'ioctl(1, 0x40 /* _IOC(IOC_OUT, \'t\', 1, 0) */, 0x0)']
+    seen = set(texts)
+    for calls in out:                                    # plus the texts of the traces the streams really produced
+        for it in (calls[1]['items'] or []) if not calls[1]['err'] else []:
+            if it[4] not in seen and len(seen) < (150 if ctx.quick() else 2000):
+                seen.add(it[4])
+                texts.append(it[4])
     for t in texts:
         creq.append({'bits': [True] * 6, 'tm': [(7, 1, 'p')], 'ts': 5, 'tid': 7, 'text': t})
-    cres = vlib.run_impl('run_format.py', {'cases': creq})['results']
-    ctx.evaluations += len(creq)
+    # log lines: switches x colour x records with / without a process x texts
+    lreq = []
+    msgs = ['hello', '', 'two  spaces ', ' lead', 'tab\there', 'é ü 漢字', 'x' * 70, 'm', '[0m', '0;1m not an escape', 'a\nb']
+    for _ in range(80 if ctx.quick() else 1500):
+        bits = rng.choice(configs)
+        lreq.append({'bits': list(bits), 'color': rng.random() < 0.5,
+                     'tm': [(7, 1, 'launchd'), (8, 55, rng.choice(['Safari é', 'a-very-long-process-name-over-27-chars', '']))],
+                     'tid': rng.choice([7, 8, 9, 0, 2 ** 40]),
+                     'log': {'secs': rng.randint(0, 2 ** 31), 'usecs': rng.choice([0, 5, 999999, rng.randint(0, 999999)]),
+                             'tzmin': rng.choice([0, 120, -300]), 'process': rng.choice(['', 'Safari', 'kernel']),
+                             'message': rng.choice(msgs)}})
+    cres = vlib.run_impl('run_format.py', {'cases': creq + lreq})['results']
+    lres = cres[len(creq):]
+    cres = cres[:len(creq)]
+    ctx.evaluations += len(creq) + len(lreq)
+    lcases = []
+    for q, r in zip(lreq, lres):
+        if 'err' in r:
+            ctx.failing.append({'input': q, 'expected': 'a log line', 'actual': r['err'], 'why': 'formatting a log line raised'})
+            continue
+        st, _, _, stid, sp, _ = q['bits']
+        tp = {t: pid for t, pid, _ in q['tm']}
+        pn = {pid: n for _, pid, n in q['tm']}
+        proc = f"{pn.get(tp[q['tid']], '')}({tp[q['tid']]})" if q['tid'] in tp else f"Error: tid {q['tid']}"
+        exp = ((f"{r['tstext']:<27}" if st else '') + (f"{q['tid']:>11} " if stid else '')
+               + (f" {proc:<27} " if sp and q['log']['process'] else '') + q['log']['message'])
+        text = re.sub(r'\x1b\[[0-9;]*m', '', r['line'])
+        if text != exp:
+            ctx.failing.append({'input': q, 'expected': exp, 'actual': r['line'],
+                                'why': ('colouring changed the text of the log line' if q['color'] else
+                                        'log line is not the concatenation of its enabled columns (timestamp, thread id, process, message)')})
+        if q['color'] and r['line'] != text:
+            ctx.nontrivial.add(repr(('log', q['bits'], q['log']['message'])))
+        tm = clist([f'({cN(t)}, {cN(pp)}, {vlib.cstr_bytes(n)})' for t, pp, n in q['tm']])
+        lcases.append(f'({clist([cb(b) for b in q["bits"]])}, {cb(q["color"])}, {tm}, {vlib.cstr_bytes(r["tstext"])}, {cN(q["tid"])}, '
+                      f'{cb(bool(q["log"]["process"]))}, {vlib.cstr_bytes(q["log"]["message"])}, {vlib.cstr_bytes(r["line"])})')
     hcases = []
     for m, r in zip(cmeta, cres):
         fr = clist([f'({cN(a)}, ' + ('None' if u is None else f'(Some ({vlib.cstr_bytes(uuid_text(u))}, {cN(off)}))') + ')' for a, u, off in m['frames']])
@@ -133,13 +174,19 @@ def run(ctx, model_ok):
     for t, r in zip(texts, cres[len(cmeta):]):
         if r['colored_stripped'] != r['plain']:
             colour_changes.append({'text': t, 'plain': r['plain'], 'colored_without_ansi': r['colored_stripped']})
-    ctx.extra['colour_check'] = {'texts': len(texts), 'changed_by_colouring': colour_changes}
+    ctx.extra['colour_check'] = {'texts': len(texts), 'changed_by_colouring': colour_changes, 'log_lines': len(lreq)}
+    for ch in colour_changes:
+        ctx.failing.append({'input': {'trace_text': ch['text']}, 'expected': ch['plain'], 'actual': ch['colored_without_ansi'],
+                            'why': 'colouring changed the text of the trace line'})
     ctx.samples = [{'switches': dict(zip(SW, info[0][2])), 'impl_event_line': out[0][0]['items'][:1], 'impl_trace_line': out[0][2]['items'][:1]}]
     if model_ok:
         bad, errors = vlib.run_model_cases('C14', HEADER, 'gcase', 'gcheck', cases, per_file=8)
         bad2, errors2 = vlib.run_model_cases('C14h', HEADER, 'hcase', 'hcheck', hcases, per_file=50)
-        ctx.traces_validated = len(cases) - len(bad) + len(hcases) - len(bad2)
-        for e in (errors + errors2)[:1]:
+        bad3, errors3 = vlib.run_model_cases('C14l', HEADER, 'lcase', 'lcheck', lcases, per_file=100)
+        ctx.traces_validated = len(cases) - len(bad) + len(hcases) - len(bad2) + len(lcases) - len(bad3)
+        for b in bad3[:3]:
+            ctx.broken.append(('correspondence', {'log_line_case': lcases[b][:600]}))
+        for e in (errors + errors2 + errors3)[:1]:
             ctx.broken.append(('correspondence', f'case files failed to evaluate: {e}'))
         for b in bad[:5]:
             ctx.broken.append(('correspondence', {'switches': dict(zip(SW, info[b][2])), 'events': info[b][1][:8],
